@@ -99,7 +99,7 @@ EVENTS = ["STOPIN", "STOPIN0", "STOPIN2", "GO", "SPAWN", "SPAWN2", "DSEND", "DSE
 
 def plan(tier):
     q = tier == "quick"
-    out = [{"name": "main", "examples": 8000 if q else 200000}]
+    out = [{"name": "main", "examples": 16000 if q else 200000}]
     for f in findings.open_for(PROPERTY):
         if f.exclude_profile:
             out.append({"name": "probe:" + f.id, "examples": 400 if q else 4000, "shards": 4})
